@@ -464,6 +464,88 @@ let run_serde (line : string) : string =
   | ["agree"] -> if tables_agree then "OK agree=1" else "OK agree=0"
   | _ -> failwith "bad serde case"
 
+(* ---- link family: the cache-free assembler specification on abstract module graphs ------------- *)
+let rec code_eq (a : code) (b : code) : bool =
+  match a, b with
+  | KOps x, KOps y -> Big_int_Z.eq_big_int x y
+  | KSeq l, KSeq m -> List.length l = List.length m && List.for_all2 code_eq l m
+  | KCall x, KCall y -> code_eq x y
+  | KSys x, KSys y -> code_eq x y
+  | _, _ -> false
+
+let parse_item (t : string) : item =
+  let num s = z_of_string s in
+  let two s = match String.split_on_char '.' s with [a; b] -> (num a, num b) | _ -> failwith "bad target" in
+  let rest k = String.sub t k (String.length t - k) in
+  if t.[0] = 'o' then IOp (num (rest 1))
+  else if t.[0] = 's' then ISys (num (rest 1))
+  else match String.sub t 0 2 with
+    | "xl" -> IExecL (nat_of_int (int_of_string (rest 2)))
+    | "cl" -> ICallL (nat_of_int (int_of_string (rest 2)))
+    | "rl" -> IRefL (nat_of_int (int_of_string (rest 2)))
+    | "xi" -> let (m, n) = two (rest 2) in IExecI (m, n)
+    | "ci" -> let (m, n) = two (rest 2) in ICallI (m, n)
+    | "ri" -> let (m, n) = two (rest 2) in IRefI (m, n)
+    | _ -> failwith ("bad item " ^ t)
+
+let parse_proc (t : toks) : proc =
+  if next t <> "P" then failwith "expected P";
+  let name = z_of_string (next t) in
+  let ex = next t = "1" in
+  let n = int_of_string (next t) in
+  let body = List.init n (fun _ -> parse_item (next t)) in
+  { p_name = name; p_export = ex; p_body = body }
+
+let run_link (line : string) : string =
+  let t = { v = Array.of_list (split_ws line); i = 0 } in
+  if next t <> "K" then failwith "expected K";
+  let nk = int_of_string (next t) in
+  let kprocs = List.init nk (fun _ -> parse_proc t) in
+  if next t <> "L" then failwith "expected L";
+  let nm = int_of_string (next t) in
+  let mods = List.init nm (fun _ ->
+    if next t <> "M" then failwith "expected M";
+    let path = z_of_string (next t) in
+    let nre = int_of_string (next t) in
+    let re = List.init nre (fun _ ->
+      let a = z_of_string (next t) in let m = z_of_string (next t) in let n = z_of_string (next t) in (a, (m, n))) in
+    let np = int_of_string (next t) in
+    let ps = List.init np (fun _ -> parse_proc t) in
+    (path, { m_reexp = re; m_procs = ps })) in
+  let fuel = nat_of_int (nm + 2) in
+  (* the kernel is a module without imports; its exported procedures are reachable by syscall *)
+  let kernel =
+    match lk_procs [] (fun _ _ -> None) kprocs [] with
+    | Some cs -> Some (List.map2 (fun p c -> (p.p_name, c)) kprocs cs)
+    | None -> None in
+  if next t <> "N" then failwith "expected N";
+  let np = int_of_string (next t) in
+  let outs = List.init np (fun _ ->
+    if next t <> "G" then failwith "expected G";
+    let nl = int_of_string (next t) in
+    let ps = List.init nl (fun _ -> parse_proc t) in
+    if next t <> "B" then failwith "expected B";
+    let nb = int_of_string (next t) in
+    let body = List.init nb (fun _ -> parse_item (next t)) in
+    match kernel with
+    | None -> "ERR"
+    | Some k ->
+      (match lk_program mods k fuel ps body with
+       | None -> "ERR"
+       | Some (c, tbl) ->
+         (* distinct call targets reachable from the root through the table *)
+         let seen = ref [] in
+         let rec walk c =
+           List.iter (fun tgt ->
+             if not (List.exists (code_eq tgt) !seen) then begin
+               seen := tgt :: !seen;
+               if List.exists (code_eq tgt) tbl then walk tgt
+             end) (calls_of c) in
+         walk c;
+         let closed = List.for_all (fun tgt -> List.exists (code_eq tgt) tbl) !seen in
+         Printf.sprintf "OK cb=%d closed=%d" (List.length !seen) (if closed then 1 else 0))) in
+  String.concat " || " outs
+
 let () =
   let family = Sys.argv.(1) in
   let ic = open_in Sys.argv.(2) in
@@ -484,6 +566,7 @@ let () =
               | "aireval" -> run_aireval line
               | "astexec" -> run_astexec line
               | "serde" -> run_serde line
+              | "link" -> run_link line
               | _ -> failwith "unknown family")
            with Failure m -> "DRIVER-FAIL " ^ m
               | Stack_overflow -> "DRIVER-FAIL stack overflow" in
